@@ -19,38 +19,7 @@ from wormhole._dilation import encode as ENC, connection as CX  # noqa: E402
 
 
 # ------------------------------------------------------------------ shadows
-class SymStructMod:
-    error = _real_struct.error
-
-    SIZES = {"B": 1, "H": 2, "L": 4, "I": 4, "Q": 8}
-
-    @classmethod
-    def _fmt(cls, fmt):
-        if len(fmt) == 2 and fmt[0] in "<>!" and fmt[1] in cls.SIZES:
-            return fmt[0] != "<", cls.SIZES[fmt[1]]
-        raise core.Escape("struct format %r with symbolic operand" % (fmt,))
-
-    @classmethod
-    def pack(cls, fmt, *vals):
-        if any(isinstance(v, SymInt) for v in vals):
-            big, n = cls._fmt(fmt)
-            if len(vals) != 1:
-                raise _real_struct.error("pack expected 1 item")
-            v = vals[0]
-            if not (0 <= v < 256 ** n):
-                raise _real_struct.error("argument out of range")
-            b = be_encode(v, n)
-            return b if big else SymBytes(b.e[::-1])
-        return _real_struct.pack(fmt, *vals)
-
-    @classmethod
-    def unpack(cls, fmt, b):
-        if isinstance(b, SymBytes):
-            big, n = cls._fmt(fmt)
-            if len(b) != n:
-                raise _real_struct.error("unpack requires a buffer of %d bytes" % n)
-            return (be_decode(b if big else SymBytes(b.e[::-1])),)
-        return _real_struct.unpack(fmt, b)
+from symrun import structmod as SymStructMod  # noqa: E402
 
 
 class LogRec:
